@@ -22,7 +22,7 @@ _NOTE = ("theorems are about the hand-written model of the validation front (coq
 PROPS = {
     "C13": dict(engines=["core", "coremal"], props_file="Props/C13.v", checkers=["Oracles/CoreC13.v"],
                 checker_fns={"core": "Oracles.CoreC13:c13_check_all", "coremal": "Oracles.CoreC13:c13_check_all"},
-                variants=["gang", "malformed"], coq_scan=["Core/Guard.v", "Core/GuardProofs.v", "Core/Proj.v", "Oracles/CoreC13.v", "Props/C13.v", "Core/Obs.v", "Base"], level="proof",
+                variants=["malformed", "gangdeep", "gang", "preemptdeep"], coq_scan=["Core/Guard.v", "Core/GuardProofs.v", "Core/Proj.v", "Oracles/CoreC13.v", "Props/C13.v", "Core/Obs.v", "Base"], level="proof",
                 assumptions=["no nil list elements / nil map values in SI messages (the property's quantifier)", "single partition, single RM; partition not stopped or draining"],
                 manifest=dict(category="proof", text="Coq: every request the property calls invalid is refused by the guards with the matching rejection (invalid_rejected), a refused request returns the state untouched (invalid_no_trace), the guards refuse nothing valid (refused_only_invalid), the repaired front has no crash path while the code before the fixes had three (no_crash / crash_before_fix), one clause refuted with witness (foreign allocation moved to another node is accepted). Oracle on every step of the core and coremal histories: no panic, invalid requests leave the full accounting projection unchanged and get their rejection, implementation verdict = guard model verdict",
                               note=_NOTE, technique="Coq proof over a guard model + malformed-request search with accounting snapshot + verdict correspondence")),
